@@ -500,8 +500,12 @@ func scenarioSnapshotMarkers(name string) scenario {
 		s.spawn("writer", func() {
 			var ins1 uint32
 			steps := []func(){
-				func() { ins1, _ = c.Insert(func(row column.Row) error { row.SetInt64("a", 11); row.SetString("s", "first"); return nil }) },
-				func() { c.QueryAt(0, func(row column.Row) error { row.MergeString("s", "abcdef"); row.SetInt64("a", 1); return nil }) },
+				func() {
+					ins1, _ = c.Insert(func(row column.Row) error { row.SetInt64("a", 11); row.SetString("s", "first"); return nil })
+				},
+				func() {
+					c.QueryAt(0, func(row column.Row) error { row.MergeString("s", "abcdef"); row.SetInt64("a", 1); return nil })
+				},
 				func() { c.Insert(func(row column.Row) error { row.SetInt64("a", 22); return nil }) },
 				func() { c.DeleteAt(ins1) },
 				func() { c.QueryAt(1, func(row column.Row) error { row.MergeString("s", "uvwxyz"); return nil }) },
